@@ -115,6 +115,9 @@ func runOps(t *gen.Trace, r *gen.R, nops int) {
 	for _, m := range modNames {
 		addrs = append(addrs, ak.GetModuleAddress(m))
 	}
+	// addresses whose length is not 20 bytes are accounts of their own (keeper level: any byte string)
+	addrs = append(addrs, append(append(sdk.Address{}, addrs[0]...), 0x00), append(sdk.Address{}, addrs[1][:19]...), sdk.Address{0x01},
+		append(append(sdk.Address{}, ak.GetModuleAddress(govTypes.DAOAccountName)...), 0x01))
 	mods := append(append([]string{}, modNames...), "nope")
 	pickAmt := func(bal sdk.BigInt) int64 {
 		b := int64(0)
